@@ -113,3 +113,96 @@ Proof.
   - intros d. bal_rw. rewrite Hdo. ledger.
   - repeat split; reflexivity.
 Qed.
+
+Lemma interest_effect c s a id ie s' :
+  VWf s -> msg_interest_calc c s a id ie = Ok s' ->
+  exists v0, find_v (vaults s) id = Some v0 /\ 0 <= ie /\
+    effect c s s' 0 (BUpd v0 (with_int v0 (v_int v0 + ie))) 0.
+Proof.
+  intros W H. unfold msg_interest_calc in H. do 2 exec1 H. rename C0 into M.
+  destruct (accrue_inv _ _ _ _ _ H M) as [Hie ->].
+  pose proof (vwf_found _ _ _ W M) as (W1 & W2 & W3 & W4). pose proof (find_v_id _ _ _ M) as Hvid.
+  exists v. split; [reflexivity|]. split; [lia|].
+  constructor; ssimpl; bc_simpl; try reflexivity.
+  - repeat split; congruence.
+  - unfold wfv; bc_simpl; lia.
+  - intros a' p'. prod_rw. rewrite andb_false_r, orb_false_r. reflexivity.
+  - intros a' p'. prod_rw. destruct (_ && _); lia.
+  - intros a' p'. prod_rw. destruct (_ && _); lia.
+  - intros a' p'. prod_rw. destruct (_ && _); reflexivity.
+  - intros a' x. ledger.
+  - intros d. ledger.
+  - repeat split; reflexivity.
+Qed.
+
+Lemma repay_effect c s f a e id amt ie s' :
+  ProdsExist s -> VWf s ->
+  msg_repay c s f a e id amt ie = Ok s' ->
+  exists v0 ep, find_v (vaults s) id = Some v0 /\ get_ep c e = Some ep /\ v_pair v0 = e /\ v_app v0 = a /\ v_owner v0 = f /\ 0 <= ie /\ 0 < amt /\
+   ((amt <= v_int v0 + ie /\
+     effect c s s' f (BUpd v0 (with_int v0 (v_int v0 + ie - amt))) amt) \/
+    (v_int v0 + ie < amt /\ ep_floor ep <= v_out v0 - (amt - (v_int v0 + ie)) /\
+     effect c s s' f (BUpd v0 (with_int (with_out v0 (v_out v0 - (amt - (v_int v0 + ie)))) 0)) (v_int v0 + ie))).
+Proof.
+  intros PE W H. unfold msg_repay in H. cbv zeta in H.
+  exec_checks H. exec_accrue H.
+  pose proof (get_ep_id _ _ _ M) as Hid. pose proof (find_v_id _ _ _ M0) as Hvid.
+  pose proof (prods_exist_v _ _ _ PE M0) as Hpf. pose proof (vwf_found _ _ _ W M0) as (W1 & W2 & W3 & W4).
+  bool_norm.
+  replace (v_app v) with a in Hpf by congruence. replace (v_pair v) with e in Hpf by congruence.
+  pose proof (denom_in_ep _ _ _ M) as Hdi. pose proof (denom_out_ep _ _ _ M) as Hdo.
+  replace e with (v_pair v) in Hdi, Hdo by congruence.
+  exec1 H. bc_simpl.
+  exists v, e0. repeat (split; [first [reflexivity|congruence|lia]|]).
+  destruct (Z.leb_spec amt (v_int v + ie)) as [Hle|Hgt].
+  - (* interest only *)
+    left. split; [lia|].
+    exec1 H. injection H as <-.
+    assert (E' : exists b1, st = set_bal (set_vaults s (put_v (vaults s) (with_int v (v_int v + ie)))) b1 /\
+                 forall a' x, b1 a' x = bal s a' x + xfer f VAULT (ep_out e0) amt a' x + xfer VAULT COLL (ep_out e0) amt a' x).
+    { destruct (Z.gtb_spec amt 0); [|lia].
+      exec1 E. apply send_spec in E0. destruct E0 as (_ & b1 & -> & Hb1).
+      exec1 E. apply send_spec in E0. destruct E0 as (_ & b2 & -> & Hb2).
+      apply update_collector_spec in E. destruct E as [_ ->]. ssimpl.
+      exists b2. split; [reflexivity|]. intros a' x. rewrite Hb2. ssimpl. rewrite Hb1. ssimpl. reflexivity. }
+    destruct E' as (b1 & -> & Hb1). ssimpl. rewrite put_put by reflexivity.
+    constructor; ssimpl; bc_simpl; try reflexivity.
+    + repeat split; congruence.
+    + unfold wfv; bc_simpl; lia.
+    + intros a' p'. prod_rw. rewrite andb_false_r, orb_false_r. reflexivity.
+    + intros a' p'. prod_rw. destruct (_ && _); lia.
+    + intros a' p'. prod_rw. destruct (_ && _); lia.
+    + intros a' p'. prod_rw. destruct (_ && _); reflexivity.
+    + lia.
+    + intros a' x. bal_rw. rewrite Hdi, Hdo. ledger.
+    + intros d. ledger.
+    + repeat split; reflexivity.
+  - right. split; [lia|].
+    do 4 exec1 H. injection H as <-.
+    apply csend_spec in E. destruct E as (b1 & -> & Hb1).
+    apply cburn_spec in E0. destruct E0 as (b2 & sp2 & -> & Hb2 & Hs2).
+    assert (E' : exists b3, st1 = set_bal (set_sup (set_bal (set_bal (set_vaults s (put_v (vaults s) (with_int v (v_int v + ie)))) b1) b2) sp2) b3 /\
+                 forall a' x, b3 a' x = b2 a' x + xfer VAULT COLL (ep_out e0) (v_int v + ie) a' x).
+    { destruct (Z.gtb_spec (v_int v + ie) 0).
+      - exec1 E1. apply send_spec in E. destruct E as (_ & b3 & -> & Hb3).
+        apply update_collector_spec in E1. destruct E1 as [_ ->]. ssimpl.
+        exists b3. split; [reflexivity|]. intros a' x. rewrite Hb3. reflexivity.
+      - injection E1 as <-. exists b2. split; [reflexivity|]. intros a' x.
+        replace (v_int v + ie) with 0 by lia. unfold xfer. destruct (_ && _), (_ && _); lia. }
+    destruct E' as (b3 & -> & Hb3). ssimpl.
+    match goal with |- context [upd_mint ?st ?a0 ?p0 ?m ?ad] =>
+      destruct (upd_mint_spec st a0 p0 m ad Hpf) as (f' & -> & Hf1 & Hf2 & Hf3 & Hf4) end.
+    split; [lia|].
+    rewrite put_put by reflexivity.
+    constructor; ssimpl; bc_simpl; try reflexivity.
+    + repeat split; congruence.
+    + unfold wfv; bc_simpl; lia.
+    + intros a' p'. prod_rw. rewrite andb_false_r, orb_false_r. reflexivity.
+    + intros a' p'. prod_rw. eqb_cases.
+    + intros a' p'. prod_rw. eqb_cases.
+    + intros a' p'. prod_rw. eqb_cases.
+    + lia.
+    + intros a' x. bal_rw. rewrite Hdi, Hdo. ledger.
+    + intros d. bal_rw. rewrite Hdo. ledger.
+    + repeat split; reflexivity.
+Qed.
